@@ -202,8 +202,17 @@ class G:
                 sel.append({"e": e, "as": self.alias("c")})
             if not single and not plain_cols and r.random() < 0.15:
                 part = [self.col(srcs)] if r.random() < 0.6 else []
-                sel.append({"e": {"k": "win", "n": r.choice(["ROW_NUMBER", "RANK", "SUM", "COUNT"]), "a": self.col(srcs, "int"),
-                                  "part": part, "order": [[self.col(srcs, "int"), r.choice(["ASC", "DESC"])]]}, "as": self.alias("w"), "window": True})
+                wn = r.choice(["ROW_NUMBER", "RANK", "SUM", "COUNT"])
+                worder = [[self.col(srcs, "int"), r.choice(["ASC", "DESC"])]]
+                if wn == "ROW_NUMBER":
+                    # ROW_NUMBER numbers tied rows in an engine-chosen order: make the window order total (unique key of every
+                    # source), or fall back to RANK (deterministic under ties) where a source has no key
+                    if all(s_["k"] == "table" for s_ in srcs):
+                        worder += [[{"k": "col", "src": s_["alias"] or s_["t"], "name": "id"}, "ASC"] for s_ in srcs]
+                    else:
+                        wn = "RANK"
+                sel.append({"e": {"k": "win", "n": wn, "a": self.col(srcs, "int"),
+                                  "part": part, "order": worder}, "as": self.alias("w"), "window": True})
         q = {"k": "select", "from": [srcs[0]] + extra_from, "joins": joins, "select": sel, "distinct": (not grouped) and r.random() < 0.15,
              "where": self.crit(srcs, 2) if r.random() < 0.6 else None, "group": group,
              "having": ({"k": "cmp", "o": r.choice([">", ">=", "<"]), "l": {"k": "agg", "n": "COUNT", "a": {"k": "const", "v": 1}, "distinct": False},
